@@ -441,6 +441,311 @@ func checkC19(e *Engine, r *Report) {
 		}
 	}
 
+	// ---- rule 3b: documented semantics of the loop-free operators ---------------------------
+	// The result of Evaluate under each single-value operator, as a boolean formula over the tests it performs, equals
+	// the documented one for every valuation:  Equals: found ∧ (value = V0 ∨ V0 = "*"),  NotEqual: ¬found ∨ value ≠ V0,
+	// Matches: found ∧ glob(V0, value),  MatchesNot: ¬(found ∧ glob),  Exists: found,  NotExist: ¬found, AlwaysTrue: true.
+	{
+		cz := &canonizer{e: e, seen: map[ssa.Value]bool{}}
+		role := map[string]string{} // canonical atom -> role
+		var keyValue *ssa.Call
+		AllInstrs(evaluate, func(in ssa.Instruction) {
+			if c, ok := in.(*ssa.Call); ok && callObj(c.Common()) != nil && callObj(c.Common()).Name() == "KeyValue" {
+				keyValue = c
+			}
+		})
+		var okV, valV ssa.Value
+		if keyValue != nil && keyValue.Referrers() != nil {
+			for _, ref := range *keyValue.Referrers() {
+				if ex, ok := ref.(*ssa.Extract); ok {
+					if ex.Index == 1 {
+						okV = ex
+					} else if ex.Index == 0 {
+						valV = ex
+					}
+				}
+			}
+		}
+		isV0 := func(v ssa.Value) bool { // e.Values[0]
+			u, ok := v.(*ssa.UnOp)
+			if !ok || u.Op != token.MUL {
+				return false
+			}
+			ia, ok := u.X.(*ssa.IndexAddr)
+			if !ok || !isConstInt(ia.Index, 0) {
+				return false
+			}
+			f, _ := loadedField(ia.X)
+			return f == fValues
+		}
+		if okV == nil || valV == nil {
+			r.Undecided("R6:operator-semantics", "R6 operator tables", "Evaluate looks the key up with KeyValue and uses both results", e.Pos(evaluate.Pos()), evaluate, "KeyValue call or its results not found")
+		} else {
+			role[cz.str(okV)] = "found"
+			AllInstrs(evaluate, func(in ssa.Instruction) {
+				switch x := in.(type) {
+				case *ssa.BinOp:
+					if x.Op != token.EQL && x.Op != token.NEQ {
+						return
+					}
+					at := cz.str(&ssa.BinOp{Op: token.EQL, X: x.X, Y: x.Y})
+					switch {
+					case (x.X == valV && isV0(x.Y)) || (x.Y == valV && isV0(x.X)):
+						role[at] = "eq0"
+					case isV0(x.X) || isV0(x.Y):
+						other := x.Y
+						if isV0(x.Y) {
+							other = x.X
+						}
+						if k, ok := other.(*ssa.Const); ok && k.Value != nil && k.Value.ExactString() == `"*"` {
+							role[at] = "star0"
+						}
+					}
+				case *ssa.Extract:
+					if c, ok := x.Tuple.(*ssa.Call); ok && x.Index == 0 {
+						if f := c.Common().StaticCallee(); f != nil && f.String() == "path/filepath.Match" {
+							a := c.Common().Args
+							if len(a) == 2 && isV0(a[0]) && a[1] == valV {
+								role[cz.str(x)] = "glob0"
+							}
+						}
+					}
+				}
+			})
+			ref := map[string]func(m map[string]bool) bool{
+				"Equals":     func(m map[string]bool) bool { return m["found"] && (m["eq0"] || m["star0"]) },
+				"NotEqual":   func(m map[string]bool) bool { return !m["found"] || !m["eq0"] },
+				"Matches":    func(m map[string]bool) bool { return m["found"] && m["glob0"] },
+				"MatchesNot": func(m map[string]bool) bool { return !(m["found"] && m["glob0"]) },
+				"Exists":     func(m map[string]bool) bool { return m["found"] },
+				"NotExist":   func(m map[string]bool) bool { return !m["found"] },
+				"AlwaysTrue": func(m map[string]bool) bool { return true },
+			}
+			refNeeds := map[string][]string{"Equals": {"found", "eq0", "star0"}, "NotEqual": {"found", "eq0"}, "Matches": {"found", "glob0"}, "MatchesNot": {"found", "glob0"}, "Exists": {"found"}, "NotExist": {"found"}}
+			refNames := make([]string, 0, len(ref))
+			for n := range ref {
+				refNames = append(refNames, n)
+			}
+			sort.Strings(refNames)
+			for _, n := range refNames {
+				k := ops[n]
+				if k == nil {
+					r.Undecided("R6:operator-semantics#"+n, "R6 operator tables", "operator constant "+n+" exists", "-", nil, "not found")
+					continue
+				}
+				f, err := boolFormulaOf(e, evaluate, 0, opAssume(fOp, k))
+				if err != nil {
+					r.Undecided("R6:operator-semantics#"+n, "R6 operator tables", "the result under "+n+" is a loop-free boolean computation", e.Pos(evaluate.Pos()), evaluate, err.Error())
+					continue
+				}
+				var atoms []string
+				for a := range f.atoms {
+					atoms = append(atoms, a)
+				}
+				sort.Strings(atoms)
+				okSem, why := len(atoms) <= 10, ""
+				if !okSem {
+					why = "too many tests"
+				}
+				// tests the documented result depends on but the code does not perform are free variables too
+				present := map[string]bool{}
+				for _, a := range atoms {
+					present[role[a]] = true
+				}
+				var missing []string
+				for _, ro := range refNeeds[n] {
+					if !present[ro] {
+						missing = append(missing, ro)
+					}
+				}
+				nv := len(atoms) + len(missing)
+				for m := 0; okSem && m < 1<<uint(nv); m++ {
+					v := map[string]bool{}
+					rv := map[string]bool{}
+					for i, a := range atoms {
+						v[a] = m&(1<<uint(i)) != 0
+						if ro, ok := role[a]; ok {
+							rv[ro] = v[a]
+						}
+					}
+					for i, ro := range missing {
+						rv[ro] = m&(1<<uint(len(atoms)+i)) != 0
+					}
+					if !rv["found"] {
+						rv["glob0"] = false // the glob is evaluated on the found value only
+					}
+					got, feasible := f.eval(v)
+					if !feasible {
+						continue
+					}
+					// the glob is only computed when the key was found; "not found" makes its outcome irrelevant
+					if want := ref[n](rv); got != want {
+						okSem = false
+						var desc []string
+						for _, a := range atoms {
+							name := role[a]
+							if name == "" {
+								name = a
+							}
+							desc = append(desc, fmt.Sprintf("%s=%v", name, v[a]))
+						}
+						for _, ro := range missing {
+							desc = append(desc, fmt.Sprintf("%s=%v (not tested by the code)", ro, rv[ro]))
+						}
+						why = fmt.Sprintf("evaluates to %v, documented %v, when %v", got, want, desc)
+					}
+				}
+				r.Check("R6:operator-semantics#"+n, "R6 operator tables", "Evaluate under "+n+" computes the documented result for every outcome of the tests it performs (key found, value equal, wildcard, glob match)", e.Pos(evaluate.Pos()), evaluate, okSem, why, true)
+			}
+		}
+	}
+
+	// ---- rule 3c: the list operators ---------------------------------------------------------
+	// In / MatchesAny (their negations follow by duality): the values are only examined when the key was found; the
+	// result becomes true exactly in an iteration whose value equals the found one or is "*" (In), or whose pattern
+	// globs it (MatchesAny).
+	{
+		var keyValue *ssa.Call
+		AllInstrs(evaluate, func(in ssa.Instruction) {
+			if c, ok := in.(*ssa.Call); ok && callObj(c.Common()) != nil && callObj(c.Common()).Name() == "KeyValue" {
+				keyValue = c
+			}
+		})
+		var okV, valV ssa.Value
+		if keyValue != nil && keyValue.Referrers() != nil {
+			for _, ref := range *keyValue.Referrers() {
+				if ex, ok := ref.(*ssa.Extract); ok {
+					if ex.Index == 1 {
+						okV = ex
+					} else if ex.Index == 0 {
+						valV = ex
+					}
+				}
+			}
+		}
+		var retV ssa.Value
+		for _, ret := range Returns(evaluate) {
+			if _, isConst := ret.Results[0].(*ssa.Const); !isConst {
+				retV = ret.Results[0]
+			}
+		}
+		for _, opn := range []string{"In", "MatchesAny"} {
+			k := ops[opn]
+			key := "R6:list-operator-semantics#" + opn
+			if k == nil || okV == nil || valV == nil || retV == nil {
+				r.Undecided(key, "R6 operator tables", "operator constant, KeyValue results and the computed result resolve", e.Pos(evaluate.Pos()), evaluate, "not found")
+				continue
+			}
+			isOp := opAssume(fOp, k)
+			var loop *sliceLoop
+			for _, l := range sliceLoops(evaluate) {
+				l := l
+				if f, _ := loadedField(rangedSlice(l)); f == fValues && reachableBlock(evaluate, l.start.Block(), isOp) {
+					loop = &l
+				}
+			}
+			if loop == nil {
+				r.Undecided(key, "R6 operator tables", "the loop over the expression's values under "+opn+" is found", e.Pos(evaluate.Pos()), evaluate, "no range over Values reachable under this operator")
+				continue
+			}
+			found := func(val bool) Assumption {
+				return func(cond ssa.Value) (bool, bool) {
+					if kk, v := isOp(cond); kk {
+						return kk, v
+					}
+					if unspill(cond) == okV {
+						return true, val
+					}
+					return false, false
+				}
+			}
+			// blocks from which the constant true flows into the result inside the loop
+			trueFrom := map[*ssa.BasicBlock]bool{}
+			seenPhi := map[*ssa.Phi]bool{}
+			var collect func(v ssa.Value, d int)
+			collect = func(v ssa.Value, d int) {
+				ph, ok := v.(*ssa.Phi)
+				if !ok || seenPhi[ph] || d > 8 {
+					return
+				}
+				seenPhi[ph] = true
+				for i, ed := range ph.Edges {
+					pred := ph.Block().Preds[i]
+					if c, ok := ed.(*ssa.Const); ok && c.Value != nil && c.Value.ExactString() == "true" {
+						if loop.start.Block().Dominates(pred) {
+							trueFrom[pred] = true
+						}
+						continue
+					}
+					collect(ed, d+1)
+				}
+			}
+			collect(retV, 0)
+			if u, ok := retV.(*ssa.UnOp); ok && u.Op == token.NOT {
+				collect(u.X, 0)
+			}
+			setsTrue := func(in ssa.Instruction) bool { return trueFrom[in.Block()] && in == lastInstr(in.Block()) }
+			matches := func(val bool) Assumption {
+				return func(cond ssa.Value) (bool, bool) {
+					if kk, v := found(true)(cond); kk {
+						return kk, v
+					}
+					// value == element / element == "*"  (In);  glob(element, value)  (MatchesAny)
+					if b, ok := cond.(*ssa.BinOp); ok && (b.Op == token.EQL || b.Op == token.NEQ) {
+						isEl := func(v ssa.Value) bool { return loop.elem(v) }
+						star := func(v ssa.Value) bool {
+							c, ok := v.(*ssa.Const)
+							return ok && c.Value != nil && c.Value.ExactString() == `"*"`
+						}
+						switch {
+						case (unspill(b.X) == valV && isEl(b.Y)) || (unspill(b.Y) == valV && isEl(b.X)):
+							return true, (b.Op == token.EQL) == val
+						case (isEl(b.X) && star(b.Y)) || (isEl(b.Y) && star(b.X)):
+							if val {
+								return false, false // either test may be the one that holds
+							}
+							return true, b.Op != token.EQL
+						}
+					}
+					if ex, ok := unspill(cond).(*ssa.Extract); ok && ex.Index == 0 {
+						if c, ok := ex.Tuple.(*ssa.Call); ok {
+							if f := c.Common().StaticCallee(); f != nil && f.String() == "path/filepath.Match" {
+								a := c.Common().Args
+								if len(a) == 2 && loop.elem(a[0]) && unspill(a[1]) == valV {
+									return true, val
+								}
+							}
+						}
+					}
+					return false, false
+				}
+			}
+			okAll, why := len(trueFrom) > 0, ""
+			if !okAll {
+				why = "no place in the loop sets the result"
+			}
+			if p := FindPath(PathQuery{Fn: evaluate, Assume: found(false), Target: func(in ssa.Instruction) bool { return in == loop.start }}); p != nil {
+				okAll, why = false, "values examined although the key was not found: "+e.pathString(p)
+			}
+			if p := FindPath(PathQuery{Fn: evaluate, Assume: found(true), Block: func(in ssa.Instruction) bool { return in == loop.head.Instrs[0] }, Target: isRet}); p != nil {
+				okAll, why = false, "values not examined although the key was found: "+e.pathString(p)
+			}
+			if p := FindPath(PathQuery{Fn: evaluate, From: loop.start, Assume: matches(false), Block: func(in ssa.Instruction) bool { return in == loop.head.Instrs[0] }, Target: setsTrue}); p != nil {
+				okAll, why = false, "the result becomes true for a value that does not match: "+e.pathString(p)
+			}
+			if opn == "In" {
+				if p := loop.skips(matches(true), setsTrue, true); p != nil {
+					okAll, why = false, "an equal value does not make the result true: "+e.pathString(p)
+				}
+			} else {
+				if p := loop.skips(matches(true), setsTrue, true); p != nil {
+					okAll, why = false, "a matching pattern does not make the result true: "+e.pathString(p)
+				}
+			}
+			r.Check(key, "R6 operator tables", "Evaluate under "+opn+" examines the values only when the key was found, and the result becomes true exactly for a value that matches the found one", e.InstrPos(loop.start), evaluate, okAll, why, true)
+		}
+	}
+
 	// ---- rule 4: weight clamp ------------------------------------------------------------
 	if av := r.Anchor(pkgCA, "Affinity.Validate"); av != nil {
 		fW := e.Field(pkgCA, "Affinity", "Weight")
